@@ -622,3 +622,31 @@ func (p *pathState) NilKnown(x ssa.Value) (isNil bool, known bool) {
 	}
 	return false, false
 }
+
+// freeVarStores returns the values the enclosing function stores into the
+// variable captured as free variable fv.
+func freeVarStores(fv *ssa.FreeVar) []ssa.Value {
+	fn := fv.Parent()
+	parent := fn.Parent()
+	if parent == nil {
+		return nil
+	}
+	idx := -1
+	for i, f := range fn.FreeVars {
+		if f == fv {
+			idx = i
+		}
+	}
+	var out []ssa.Value
+	allInstrs(parent, func(in ssa.Instruction) {
+		mc, ok := in.(*ssa.MakeClosure)
+		if !ok || mc.Fn != fn || idx < 0 || idx >= len(mc.Bindings) {
+			return
+		}
+		b := mc.Bindings[idx]
+		for _, st := range storesTo(b) {
+			out = append(out, st.Val)
+		}
+	})
+	return out
+}
